@@ -11,6 +11,7 @@ import (
 
 	"golang.org/x/tools/go/packages"
 
+	"verif/checker/internal/eval"
 	"verif/checker/internal/flow"
 	"verif/checker/internal/load"
 	"verif/checker/internal/ref"
@@ -831,13 +832,11 @@ func (c *Ctx) r0117(pk *packages.Package) {
 // R01.18: an assignment becomes a declaration only for a `var` name.
 func (c *Ctx) r0118(pk *packages.Package) {
 	const rule = "R01.18"
-	c.R.Rule(rule, "mergeVarDeclExprStmt turns `x=…` next to a `var` statement into the declaration `var x=…` by handing the assignment's target to addDefinition. That is the same binding only when x is itself declared with `var`: a parameter captured by a closure in a default-value expression lives in a separate environment (`function f(a,g=()=>a){a=1;var b}`: `var a=1` writes a new body binding, g still sees the argument), a let/const/class name cannot be redeclared, and an undeclared name would stop being a global. So every addDefinition call whose binding is the *js.Var of an assignment target is dominated by a test that admits exactly Decl == js.VariableDecl (the comparison itself, or a one-parameter predicate whose returned expression is evaluated the same way)")
+	c.R.Rule(rule, "mergeVarDeclExprStmt turns `x=…` next to a `var` statement into the declaration `var x=…` by handing the assignment's target to addDefinition. That is the same binding only when x is itself declared with `var`: a parameter captured by a closure in a default-value expression lives in a separate environment (`function f(a,g=()=>a){a=1;var b}`: `var a=1` writes a new body binding, g still sees the argument), a let/const/class name cannot be redeclared, and an undeclared name would stop being a global. So every addDefinition call in package js whose binding is a *js.Var (the target of an assignment) is dominated by a test that admits exactly Decl == js.VariableDecl (the comparison itself, or a one-parameter predicate whose returned expression is evaluated the same way)")
 	info := pk.TypesInfo
-	fd := c.fn(rule, pk, "mergeVarDeclExprStmt")
-	if fd == nil {
+	if c.fn(rule, pk, "mergeVarDeclExprStmt") == nil {
 		return
 	}
-	g := c.graph(pk, fd)
 	// the Decl kinds an expression admits for variable `v`; ok=false when it does not constrain v.Decl
 	var admits func(info *types.Info, e ast.Expr, v string, depth int) (map[string]bool, bool)
 	admits = func(info *types.Info, e ast.Expr, v string, depth int) (map[string]bool, bool) {
@@ -906,43 +905,61 @@ func (c *Ctx) r0118(pk *packages.Package) {
 		return nil, false
 	}
 	n := 0
-	for _, y := range g.Nodes {
-		a := y.Ast()
-		if a == nil || y.Kind == flow.KRange || y.Kind == flow.KSelect {
+	// (every function of the package: a new helper that folds assignments into `let` declarations is judged too)
+	for _, fd := range load.FuncDecls(pk) {
+		if fd.Body == nil {
 			continue
 		}
-		ast.Inspect(a, func(x ast.Node) bool {
-			call, ok := x.(*ast.CallExpr)
-			if !ok || !strings.HasSuffix(calleeName(info, call), "/js.addDefinition") || len(call.Args) < 2 {
-				return true
+		uses := false
+		ast.Inspect(fd.Body, func(x ast.Node) bool {
+			if call, ok := x.(*ast.CallExpr); ok && strings.HasSuffix(calleeName(info, call), "/js.addDefinition") {
+				uses = true
 			}
-			id, ok := ast.Unparen(call.Args[1]).(*ast.Ident)
-			if !ok || namedTypeName(info.TypeOf(id)) != pjs+".Var" {
-				return true
+			return true
+		})
+		if !uses {
+			continue
+		}
+		g := c.graph(pk, fd)
+		fname := load.FuncName(fd)
+		for _, y := range g.Nodes {
+			a := y.Ast()
+			if a == nil || y.Kind == flow.KRange || y.Kind == flow.KSelect {
+				continue
 			}
-			n++
-			var set map[string]bool
-			for _, f := range g.DomFacts(y) {
-				if !f.Value || f.Test.Kind != flow.KCond {
-					continue
+			ast.Inspect(a, func(x ast.Node) bool {
+				call, ok := x.(*ast.CallExpr)
+				if !ok || !strings.HasSuffix(calleeName(info, call), "/js.addDefinition") || len(call.Args) < 2 {
+					return true
 				}
-				if s, ok := admits(info, f.Test.Expr, id.Name, 0); ok {
-					if set == nil {
-						set = s
-					} else {
-						for k := range set {
-							if !s[k] {
-								delete(set, k)
+				id, ok := ast.Unparen(call.Args[1]).(*ast.Ident)
+				if !ok || namedTypeName(info.TypeOf(id)) != pjs+".Var" {
+					return true
+				}
+				n++
+				var set map[string]bool
+				for _, f := range g.DomFacts(y) {
+					if !f.Value || f.Test.Kind != flow.KCond {
+						continue
+					}
+					if s, ok := admits(info, f.Test.Expr, id.Name, 0); ok {
+						if set == nil {
+							set = s
+						} else {
+							for k := range set {
+								if !s[k] {
+									delete(set, k)
+								}
 							}
 						}
 					}
 				}
-			}
-			good := len(set) == 1 && set["VariableDecl"]
-			c.R.Check(good, rule, fmt.Sprintf("js.mergeVarDeclExprStmt/assignment to %s becomes a declaration#%d", id.Name, n), c.pos(call), "admitted only for Decl == VariableDecl",
-				fmt.Sprintf("the assignment is folded into the var statement for declaration kinds %v: for anything but a `var` name that creates or shadows a binding (`function f(a,g=()=>a){a=1;var b}` → `var a=1,b` no longer updates what g reads)", sortedKeys(set)))
-			return true
-		})
+				good := len(set) == 1 && set["VariableDecl"]
+				c.R.Check(good, rule, fmt.Sprintf("js.%s/assignment to %s becomes a declaration#%d", fname, id.Name, n), c.pos(call), "admitted only for Decl == VariableDecl",
+					fmt.Sprintf("the assignment is folded into the declaration for declaration kinds %v: for anything but a `var` name that creates or shadows a binding (`function f(a,g=()=>a){a=1;var b}` → `var a=1,b` no longer updates what g reads), and addDefinition moves the binding to the end of the list, which for `let` puts it behind initializers that read it (`let a,b=a;a=5` → `let b=a,a=5`: ReferenceError)", sortedKeys(set)))
+				return true
+			})
+		}
 	}
 	c.R.Floor(rule, "assignments folded into declarations", n, 2)
 }
@@ -1895,4 +1912,104 @@ func (c *Ctx) r0128(pk *packages.Package) {
 		return true
 	})
 	c.R.Floor(rule, "callee names compared in the CallExpr printer", n, 5)
+}
+
+// R09.18: operands of a constructed binary expression are grouped at the levels of its operator.
+func (c *Ctx) r0918(pk *packages.Package) {
+	const rule = "R09.18"
+	c.R.Rule(rule, "the rewrites of package js build new binary expressions (`a==null?b:a` → `a??b`, `c?x:!0` → `!c||x` …) and wrap the operands with groupExpr(e, level): e gets parentheses when its own level is below `level`. For a composite literal js.BinaryExpr{T, groupExpr(x, L), groupExpr(y, R)} with a constant operator T, L is binaryLeftPrecMap[T] and R is binaryRightPrecMap[T] — written as that look-up, or a constant that is not below the table's value. A lower level leaves out parentheses the grammar needs: `a??(b||c)` printed as `a??b||c` is a syntax error (?? does not mix with || and && without parentheses), `(a,b)||c` as `a,b||c` changes the meaning")
+	info := pk.TypesInfo
+	tables := map[string]map[string]int64{}
+	for _, tn := range []string{"binaryLeftPrecMap", "binaryRightPrecMap"} {
+		val, _, err := c.Ev.PackageVar(pk, tn)
+		m, ok := val.(*eval.Map)
+		if err != nil || !ok {
+			c.R.Unres(rule, "js."+tn, "-", "precedence table cannot be evaluated")
+			return
+		}
+		tables[tn] = map[string]int64{}
+		for _, e := range m.Entries {
+			k, ok1 := e.Key.(int64)
+			v, ok2 := e.Value.(int64)
+			if ok1 && ok2 {
+				tables[tn][fmt.Sprint(k)] = v
+			}
+		}
+	}
+	constVal := func(e ast.Expr) (string, bool) {
+		tv, ok := info.Types[e]
+		if !ok || tv.Value == nil {
+			return "", false
+		}
+		return tv.Value.ExactString(), true
+	}
+	n := 0
+	for _, fd := range load.FuncDecls(pk) {
+		if fd.Body == nil {
+			continue
+		}
+		seen := 0
+		ast.Inspect(fd.Body, func(x ast.Node) bool {
+			cl, ok := x.(*ast.CompositeLit)
+			if !ok || cl.Type == nil || namedTypeName(info.TypeOf(cl.Type)) != pjs+".BinaryExpr" || len(cl.Elts) != 3 {
+				return true
+			}
+			var elts [3]ast.Expr
+			for i, e := range cl.Elts {
+				if kv, ok := e.(*ast.KeyValueExpr); ok {
+					switch str(kv.Key) {
+					case "Op":
+						elts[0] = kv.Value
+					case "X":
+						elts[1] = kv.Value
+					case "Y":
+						elts[2] = kv.Value
+					}
+				} else {
+					elts[i] = e
+				}
+			}
+			if elts[0] == nil {
+				return true
+			}
+			opv, ok := constVal(elts[0])
+			if !ok {
+				return true
+			}
+			for side := 1; side <= 2; side++ {
+				tn := map[int]string{1: "binaryLeftPrecMap", 2: "binaryRightPrecMap"}[side]
+				call, ok := ast.Unparen(elts[side]).(*ast.CallExpr)
+				if !ok || !strings.HasSuffix(calleeName(info, call), "/js.groupExpr") || len(call.Args) != 2 {
+					continue
+				}
+				need, has := tables[tn][opv]
+				if !has {
+					continue
+				}
+				n++
+				seen++
+				lvl := ast.Unparen(call.Args[1])
+				good := false
+				how := ""
+				if ie, ok := lvl.(*ast.IndexExpr); ok {
+					if kv, isK := constVal(ie.Index); isK && str(ie.X) == tn && kv == opv {
+						good, how = true, "the table look-up for the operator"
+					} else if isK {
+						// a look-up for another operator or in the other table: compare the values
+						if tv, ok := tables[str(ie.X)][kv]; ok {
+							good, how = tv >= need, fmt.Sprintf("%s gives %d, the operator needs %d", str(lvl), tv, need)
+						}
+					}
+				} else if v, isK := intConst(info, lvl); isK {
+					good, how = v >= need, fmt.Sprintf("level %s = %d, the operator needs %d", str(lvl), v, need)
+				} else {
+					continue // a level computed elsewhere (a parameter): not judged
+				}
+				sideName := map[int]string{1: "left", 2: "right"}[side]
+				c.R.Check(good, rule, fmt.Sprintf("js.%s/%s operand of a constructed %s grouped at the operator's level#%d", load.FuncName(fd), sideName, str(elts[0]), seen), c.pos(call), how, fmt.Sprintf("the %s operand of the new %s expression is grouped at %s, below what %s[%s] asks for: an operand between the two levels is printed without the parentheses it needs (`a==null?b||c:a` → `a??b||c`, a syntax error)", sideName, str(elts[0]), str(lvl), tn, str(elts[0])))
+			}
+			return true
+		})
+	}
+	c.R.Floor(rule, "grouped operands of constructed binary expressions", n, 8)
 }
